@@ -197,3 +197,35 @@ theorem C12_base_exception_untouched (cfg : ECfg) (body : Str) (ex : Exc) (tok :
   simp [errorRecords, h]
 
 end ChamVerif
+
+namespace ChamVerif
+
+/-- **C12 (call sites, innermost first)**: when the body of a macro raises with its `__token` set, the macro function's
+handler appends that position to the error list and re-raises; the caller's own `__token` (reset before the call of
+an internal macro) is what it was — so the render function's handler, which runs last, adds the outermost record
+last -/
+theorem C12_macro_records_then_reraises (cfg : ECfg) (al : List (Str × Val)) (f : Nat) (nm : Str) (body : Node)
+    (s s' : RState) (ex : Exc) (t : Nat × Nat)
+    (hm : lookupAssoc cfg.macros nm = some body)
+    (hb : eval cfg [] f body (macroEnter body { s with x := { s.x with token := none } }) = .raised ex s')
+    (ht : s'.x.token = some t) :
+    ∃ s'', eval cfg al (f + 1) (.useInternal (some nm)) s = .raised ex s'' ∧ s''.errs = s'.errs.push t ∧
+      s''.x.token = none ∧ s''.env.own = s.env.own ∧ s''.streams = s'.streams := by
+  refine ⟨macroRaise { s with x := { s.x with token := none } } s', ?_, ?_, rfl, rfl, rfl⟩
+  · simp [eval, hm, hb]
+  · simp [macroRaise, ht]
+
+/-- the records of the message: those of the functions the exception passed through, in the order they were appended
+(innermost first), then the render function's own -/
+theorem C12_records_order (cfg : ECfg) (src : Str) (ex : Exc) (tok : Nat × Nat) (inner : List (Nat × Nat))
+    (h : ¬(ex.cls == "Exception" || ex.cls == "BaseException" || !isSubclass cfg ex.cls ["Exception"]) = true) :
+    (errorRecords cfg src ex (some tok) inner).map (·.text) =
+      (inner ++ [tok]).map (fun p => (src.drop p.1).take p.2) := by
+  unfold errorRecords
+  simp only [h, if_false, Bool.false_eq_true, List.map_map]
+  apply List.map_congr_left
+  intro p _
+  obtain ⟨a, b⟩ := p
+  rfl
+
+end ChamVerif
